@@ -46,6 +46,7 @@ THEOREMS = [
     "Lineno.inherited_field_line_correct_partial", "Lineno.report_on_inheriting_object_wrong",
     "Lineno.attr_field_only_correct", "Lineno.attr_own_only_correct", "Lineno.attr_both_partial",
     "Lineno.attr_both_counterexample",
+    "Lineno.doc_assignment_keeps_old_base", "Lineno.doc_assignment_line_partial", "Lineno.doc_assignment_counterexample",
     # google / numpy
     "Lineno.converted_formats_in_range_partial", "Lineno.converted_formats_in_range_counterexample",
     "Lineno.napoleon_param_divergence_google", "Lineno.napoleon_param_divergence_numpy",
@@ -72,6 +73,10 @@ PARTIAL = {
     "Lineno.attr_both_partial":
         "an attribute documented by a class field and by its own docstring: right only if both docstrings start on the same line, "
         "i.e. never (attr_both_counterexample; open finding line:attr-field-and-inline-docstring)",
+    "Lineno.doc_assignment_line_partial":
+        "a text assigned to obj.__doc__ is located from the definition's old docstring_lineno (or def line): right only if that "
+        "equals the assigned literal's first text line, i.e. never (doc_assignment_counterexample; open finding "
+        "line:doc-assignment:keeps-old-lineno)",
     "Lineno.type_warning_one_low":
         "states the defect: --process-types warnings of a type field are one line low for every field "
         "(open finding line:processtypes-type-warning:+1)",
@@ -1512,15 +1517,89 @@ def gen_continuation_module(rng, fmt: str) -> Dict[str, Any]:
     return {"fmt": fmt, "source": "\n".join(lines) + "\n", "docs": docs}
 
 
+def gen_docassign_module(rng, fmt: str) -> Dict[str, Any]:
+    """functions / classes, with or without a docstring literal of their own, whose documentation is then given by
+    `name.__doc__ = <literal>`; problems are planted in the assigned literal"""
+    names = Names()
+    cells = layout_cells()
+    lines: List[str] = ["# docassign"] * rng.randint(0, 3)
+    targets = []
+    for k in range(rng.randint(1, 3)):
+        kind = rng.choice(["function", "class"])
+        had = rng.random() < 0.5
+        lines += [""] * rng.randint(0, 2)
+        lines.append("def t%d(a):" % k if kind == "function" else "class T%d:" % k)
+        if had:
+            lines += ['    ' + '"' * 3, "    Old documentation.", '    ' + '"' * 3]
+        lines.append("    return a" if kind == "function" else "    x = 1")
+        targets.append({"name": ("t%d" if kind == "function" else "T%d") % k, "owner": kind, "had": had})
+    docs = []
+    for t in targets:
+        lines += [""] * rng.randint(0, 3)
+        layout = gen_layout(rng, rng.choice(cells))
+        # (a class docstring assigned afterwards is not split into attribute fields: no @ivar-like entries, no parameters)
+        blocks = gen_blocks(rng, fmt, "function" if t["owner"] == "function" else "attribute", names, layout["raw"], layout["opening"])
+        if not any(b["constructs"] for b in blocks):
+            nm = names.new()
+            blocks[0]["lines"][0] = plant(rng, fmt, "X", nm, blocks[0]["lines"][0])
+            blocks[0]["constructs"].append(("X", 0, nm))
+        doc = {"fmt": fmt, "owner": t["owner"], "layout": layout, "blocks": blocks, "name": "m." + t["name"], "ind": 0, "had": t["had"]}
+        src, value, starts = build_literal(doc, 0)
+        src[0] = "%s.__doc__ = %s" % (t["name"], src[0])
+        doc["str_lineno"], doc["value"], doc["starts"] = len(lines) + 1, value, starts
+        lines += src
+        docs.append(doc)
+    return {"fmt": fmt, "source": "\n".join(lines) + "\n", "docs": docs}
+
+
+def stream_docassign(ctx: Ctx, dm, results) -> None:
+    reqs, impls, pay = [], [], []
+    for m, res in zip(dm, results):
+        fmt = m["fmt"]
+        inp = {"source": m["source"], "docformat": FMTS[fmt], "warnings_as_errors": False}
+        if not isinstance(res["rc"], int):
+            ctx.fail("run-aborted:docassign", inp, f"driver.main ended with {res['rc']}")
+            continue
+        tree = ast.parse(m["source"])
+        vals = {nd.value.lineno: nd.value.value for nd in ast.walk(tree) if isinstance(nd, ast.Assign) and isinstance(nd.value, ast.Constant)}
+        entries = report_entries(res)
+        for doc in m["docs"]:
+            o = res["objs"].get(doc["name"])
+            if o is None or vals.get(doc["str_lineno"]) != doc["value"]:
+                ctx.disagree("doc-assignment", inp, doc["name"], "object missing or literal differs from CPython's")
+                continue
+            mine = sorted({(e["line"], e["kind"], e["name"]) for e in entries if e["obj"] == doc["name"]})
+            ctx.count("doc-assignment:" + ("replaces-a-docstring" if doc["had"] else "no-docstring-before"))
+            ctx.case("docassign|%s|%s|%s" % (fmt, doc["had"], enc(doc["value"])), True, None)
+            reqs.append("lineno docassign %s %d %d %d %s %s" % (fmt, o["dl"], o["ln"], doc["str_lineno"], enc(doc["value"]), cons_tokens(doc)))
+            impls.append(" ".join(sorted({"%s:%s" % (l, k) for l, k, _ in mine})))
+            pay.append({**inp, "object": doc["name"]})
+            # direct oracle: the line inside the assigned literal
+            exp = expected_reports(doc, 0)
+            byname = {(c, n): (first, own) for c, n, first, own, pc in exp if c != "E"}
+            errl = {first + (1 if fmt == "r" else 0) for c, n, first, own, pc in exp if c == "E"}      # (+1: open finding rst-markup-error)
+            sl = doc["str_lineno"]
+            for line, kind, name in mine:
+                ok = line.isdigit() and ((int(line) in errl or int(line) - (1 if fmt == "r" else 0) in {f for c, n, f, o2, pc in exp if c == "E"}) if kind == "E"
+                                         else (kind, name) in byname and int(line) in byname[(kind, name)])
+                if not ok and line.isdigit() and not (sl <= int(line) <= sl + doc["value"].count("\n") + 1):
+                    ctx.fail("line:doc-assignment:keeps-old-lineno",
+                             {**inp, "object": doc["name"], "reported": int(line), "problem": [kind, name], "assigned_literal_lines": [sl, sl + doc["value"].count("\n")]},
+                             f"{FMTS[fmt]}: {kind} '{name}' written in the text assigned to {doc['name']}.__doc__ (lines {sl}-{sl + doc['value'].count(chr(10))}) is reported on line {line}")
+    compare(ctx, "doc-assignment", reqs, impls, pay)
+
+
 def special_jobs(ctx: Ctx):
     rng = ctx.rng
     import random
     fixed = random.Random("C16-corpus-special")
     am = [gen_attr_module(fixed, "er"[i % 2]) for i in range(6)] + [gen_attr_module(rng, "er"[i % 2]) for i in range(50 if ctx.quick else 500)]
     cm = [gen_continuation_module(fixed, "er"[i % 2]) for i in range(4)] + [gen_continuation_module(rng, "er"[i % 2]) for i in range(30 if ctx.quick else 300)]
+    dm = [gen_docassign_module(fixed, "er"[i % 2]) for i in range(4)] + [gen_docassign_module(rng, "er"[i % 2]) for i in range(30 if ctx.quick else 300)]
     jobs = [(m["source"], m["fmt"], False, ["m.C.%s" % a["name"] for a in m["attrs"]] + ["m.C"]) for m in am]
     jobs += [(m["source"], m["fmt"], False, [d["name"] for d in m["docs"]]) for m in cm]
-    return am, cm, jobs
+    jobs += [(m["source"], m["fmt"], False, [d["name"] for d in m["docs"]]) for m in dm]
+    return am, cm + dm, jobs
 
 
 def stream_special(ctx: Ctx, am, cm, results) -> None:
@@ -1557,7 +1636,10 @@ def stream_special(ctx: Ctx, am, cm, results) -> None:
                              f"{FMTS[m['fmt']]}: '{nm}' written on line {where_line} in {what} of m.C.{a['name']} is reported on line {rep[nm]['line']}")
     compare(ctx, "attr-both", areq, aimp, apay)
     creq, cimp, cpay = [], [], []
-    for m, res in zip(cm, results[len(am):]):
+    dm = [m for m in cm if "docs" in m and m["docs"] and "had" in m["docs"][0]]
+    cm = [m for m in cm if m not in dm]
+    stream_docassign(ctx, dm, results[len(am) + len(cm):])
+    for m, res in zip(cm, results[len(am):len(am) + len(cm)]):
         inp = {"source": m["source"], "docformat": FMTS[m["fmt"]], "warnings_as_errors": False}
         if not isinstance(res["rc"], int):
             ctx.fail("run-aborted:continuation", inp, f"driver.main ended with {res['rc']}")
